@@ -163,8 +163,10 @@ def evaluate(cfg):
         env = default_env(shells, "c13")
         dq = density_quantities(names=["density", "density_gradient", "density_hessian", "posdef_ked",
                                        "electrostatic_potential", "stress_tensor", "ehrenfest_force"])
-        ex = Explorer(o, integral_quantities(), dq, tol=1e-9, eri_cap=(12 if quick else 20),
-                      dens_every=(25 if quick else 10))
+        # thorough: 400 searches; ERI up to 14 functions and density fields on every 20th edge keep the whole tier
+        # near half an hour on 16 cores (eri_cap 20 / every 10th edge needed about 20 CPU-hours)
+        ex = Explorer(o, integral_quantities(), dq, tol=1e-9, eri_cap=(12 if quick else 14),
+                      dens_every=(25 if quick else 20))
         depth_of = {}
         seed = System(shells, None, env)
         depth_of[seed.key()] = 0
